@@ -45,18 +45,7 @@ def ref_cell(t, f, level):
     if f in ('estimate', 'spent'):
         v = getattr(t, f)
         return '-' if v is None else str(v)
-    d = t.to_dict()
-    d.pop('id', None)        # only the exact field name 'id' shows the id; aliases of id/estimate/spent are unknown fields
-    if f not in d:
-        f = f.lower()
-        if f not in d:
-            return ''
-    v = d[f]
-    if isinstance(v, REAL):
-        return v.strftime('%d.%m.%Y %H:%M')
-    if v is None:
-        return '-'
-    return str(v)
+    return ''       # how other values are spelled is not compared (see check_sheet)
 
 
 def rows_of(given, children):
@@ -73,8 +62,12 @@ def rows_of(given, children):
 
 
 def check_sheet(text, given, fields, children, acc, case, what):
-    fl = list(fields) if fields is not None else DEFAULT
     lines = [ANSI.sub('', ln) for ln in text.split('\n')]
+    if fields is not None:
+        fl = list(fields)
+    else:
+        # which columns the default sheet shows is not fixed by the property: read them off the header line
+        fl = [tok.lower() for tok in re.split(r'[\s|]+', lines[0].strip(' |')) if tok]
     exp = rows_of(given, children)
     V = []
     if len(lines) != 1 + len(exp):
@@ -83,15 +76,16 @@ def check_sheet(text, given, fields, children, acc, case, what):
         V.append(('unequal-line-width', f'line widths {sorted(set(len(ln) for ln in lines))}'))
     else:
         hdr = lines[0]
+        hdr_u = hdr.upper()
         # column starts = where the header words start (alignment, padding and separators are not part of the property)
         starts = []
         pos = 0
         ok = True
         for f in fl:
             tok = f.upper()
-            k = hdr.find(tok, pos)
-            while k > 0 and hdr[k - 1] not in ' |':
-                k = hdr.find(tok, k + 1)
+            k = hdr_u.find(tok, pos)
+            while k > 0 and hdr_u[k - 1] not in ' |':
+                k = hdr_u.find(tok, k + 1)
             if k < 0:
                 ok = False
                 break
